@@ -35,7 +35,7 @@ NewClauses(ln) ==
 
 Returned(ln) == ln.exc = ""
 Table(s, ln) == Accepts(s.cls, ln.entry, ln.mode, Len(ln.sites), PairAdjacent(s.edges, ln.sites), s.form, ln.op, ln.which)
-Keeps(s, ln) == s.form = "struct" /\ KeepsForm(ln.entry, ln.mode, Len(ln.sites))
+Keeps(s, ln) == s.form = "struct" /\ KeepsForm(s.cls, ln.entry, ln.mode, Len(ln.sites))
 WellPosed(s, ln) == IsSiteTuple(s.dims, ln.sites) /\ FitsGate(ln.G, s.dims, ln.sites)
 
 \* clauses that do not need the value
@@ -46,8 +46,10 @@ CommonClauses(s, ln) ==
      <<"OuterSame", Returned(ln) => ln.outer = s.outer>>,
      <<"SiteTagsSame", Returned(ln) => ln.sitetags = s.sitetags>>,
      <<"StructureKept", (Returned(ln) /\ Keeps(s, ln)) => ln.struct>>,
-     \* a rejected call leaves the receiver's naming alone
-     <<"RejectionClean", ~Returned(ln) => (ln.outer = s.outer /\ ln.sitetags = s.sitetags)>> >>
+     \* a rejected call of the plain spelling leaves the receiver alone; an in-place call that raises half way
+     \* may not (that is outside the statement: only noted)
+     <<"RejectionClean", (~Returned(ln) /\ ~ln.inplace) => (ln.outer = s.outer /\ ln.sitetags = s.sitetags)>>,
+     <<"NOTE:InplaceRejectionDirty", (~Returned(ln) /\ ln.inplace) => (ln.outer = s.outer /\ ln.sitetags = s.sitetags)>> >>
 
 ApplyClauses(s, ln) ==
   LET sc  == s.scaled \/ ln.renorm
@@ -58,12 +60,14 @@ ApplyClauses(s, ln) ==
          <<"ValueUpToScale", (Returned(ln) /\ sc /\ WellPosed(s, ln)) => PropTo(ln.psiq, ref)>>,
          \* the plain (not in-place) spelling and a rejected call leave the receiver's dense form alone
          <<"ReceiverUnchanged", (ln.recv_checked /\ Returned(ln)) => ln.recv = s.psi>>,
-         <<"RejectionCleanValue", (ln.recv_checked /\ ~Returned(ln)) => ln.recv = s.psi>> >>
+         <<"RejectionCleanValue", (ln.recv_checked /\ ~Returned(ln) /\ ~ln.inplace) => ln.recv = s.psi>>,
+         <<"NOTE:InplaceRejectionDirtyValue", (ln.recv_checked /\ ~Returned(ln) /\ ln.inplace) => ln.recv = s.psi>> >>
 
 RelClauses(s, ln) ==
   CommonClauses(s, ln) \o
   << <<"ValueRel", Returned(ln) => ln.qd = 0>>,
-     <<"ReceiverUnchangedRel", ln.recv_checked => ln.recvqd = 0>> >>
+     <<"ReceiverUnchangedRel", (ln.recv_checked /\ ~(ln.inplace /\ ~Returned(ln))) => ln.recvqd = 0>>,
+     <<"NOTE:InplaceRejectionDirtyValue", (ln.recv_checked /\ ln.inplace /\ ~Returned(ln)) => ln.recvqd = 0>> >>
 
 \* the numpy transcription of the reference agrees with the specification on exact inputs
 RefClauses(ln) ==
